@@ -39,7 +39,7 @@ func eq(a, b []int) bool { return (len(a) == 0 && len(b) == 0) || reflect.DeepEq
 func concatenate(r *engine.Rec) {
 	maxLen := 4
 	if r.Tier == "thorough" {
-		maxLen = 5
+		maxLen = 6
 	}
 	L := col.List[int](common.N())
 	lists := allLists(maxLen, 3)
@@ -240,7 +240,7 @@ func extract(r *engine.Rec) {
 	C := col.Catalog[string, int](common.N())
 	seqLen := 3
 	if r.Tier == "thorough" {
-		seqLen = 4
+		seqLen = 5
 	}
 	var seqs [][]int
 	var rec func(cur []int)
